@@ -1,0 +1,38 @@
+//go:build verif
+
+// Machine-checked contracts for package blobserver (comment-only; read by /verif/govc).
+// Property C31: the local copy of an acknowledged upload is protected (persist flag) before the
+// write-back task exists, and forced cleanup removes it only after the write-back has run.
+//
+// s.cas.cacheStore.persisted is the ghost set of cache files whose persist flag is set;
+// writeBackManager.added / synced are the tasks accepted for asynchronous execution / executed
+// synchronously with success (contracts/externs/castore.spec, clients.spec).
+
+package blobserver
+
+// writeBack: the persist flag is set before the task is added; an error from either step is
+// returned (the upload is then not acknowledged).
+//@ func Server.writeBack
+//@   requires s != nil && s.cas != nil && s.cas.cacheStore != nil && s.writeBackManager != nil && s.metaInfoGenerator != nil
+//@   modifies *
+//@   assert protected_before_task: at Manager.Add#0 :: (d.hex in s.cas.cacheStore.persisted)
+//@   ensures protected_on_success: result == nil ==> (d.hex in s.cas.cacheStore.persisted)
+
+// A 409 from commit means the blob is already in the cache: the conflict is reported to the client
+// only after the write-back has been (re-)scheduled.
+//@ func Server.handleUploadConflict
+//@   requires s != nil && s.cas != nil && s.cas.cacheStore != nil && s.writeBackManager != nil && s.metaInfoGenerator != nil
+//@   modifies *
+//@   ensures never_swallows: err != nil ==> result != nil
+
+// Forced cleanup: a file whose persist flag is set is deleted only after every write-back task
+// found for it was executed successfully and the flag was cleared; any failure on the way keeps it.
+//@ func Server.maybeDelete
+//@   requires s != nil && s.cas != nil && s.cas.cacheStore != nil && s.writeBackManager != nil && s.clk != nil && s.hashRing != nil
+//@   modifies *
+//@   assert unprotected_when_deleted: at cacheStore.DeleteCacheFile#0 :: !(name in s.cas.cacheStore.persisted)
+//@   assert flag_cleared_after_writeback: at cacheStore.DeleteCacheFileMetadata#0 :: forall i int :: 0 <= i && i < len(tasks) ==> (tasks[i] in s.writeBackManager.synced)
+//@   ensures deleted_means_unprotected: deleted ==> !(name in s.cas.cacheStore.persisted)
+//@   loop 0 invariant idx: 0 - 1 <= rangeindex && rangeindex < len(tasks)
+//@   loop 0 invariant synced: forall i int :: 0 <= i && i <= rangeindex ==> (tasks[i] in s.writeBackManager.synced)
+//@   loop 0 invariant same: s.cas == entry(s.cas) && s.cas.cacheStore == entry(s.cas.cacheStore) && s.writeBackManager == entry(s.writeBackManager) && ((name in s.cas.cacheStore.persisted) <==> entry(name in s.cas.cacheStore.persisted))
